@@ -87,6 +87,7 @@ impl<C: SimColor> DrawTarget for DynTarget<'_, C> {
             let mut buf: Vec<Pixel<C>> = Vec::new();
             let it = pixels.into_iter();
             let hint = it.size_hint();
+            crate::dev::reach(1);
             it.for_each(|p| buf.push(p));
             crate::dev::note_hint("pixel stream passed to draw_iter", hint, buf.len() as u64, Some(buf.len() as u64));
             self.inner.e_draw_iter(&mut buf.into_iter())
@@ -126,6 +127,7 @@ impl<C: SimColor> DrawTarget for DynTarget<'_, C> {
                     }
                 }
                 if !ended {
+                    crate::dev::reach(0);
                     it.for_each(|c| {
                         if buf.len() as u64 > n + crate::dev::UNBOUNDED_LIMIT {
                             crate::dev::abort_unbounded();
